@@ -105,12 +105,12 @@ fn main() {
                     }
                     setup_all(&mut g);
                 }
-                "grid" => {
+                "grid" | "gridtrap" => {
                     // the situation grid (positions.rs): enumerated, not sampled; this process takes the items
                     // i with i % nslices == slice.  Root lists, the intended step, and every child of the
                     // follow-up state (push completions / pull completions) are observed.
                     if grid.is_empty() {
-                        for kind in 0..3 {
+                        for kind in (if driver == "gridtrap" { 3 } else { 0 })..5 {
                             for it in grid_positions(kind, rot) {
                                 grid.push((kind, it));
                             }
@@ -121,7 +121,7 @@ fn main() {
                         break;
                     }
                     let (kind, (c, gold, sq, d)) = grid[i];
-                    if g.reset_parsed(&c, gold, 2 + i % 40, ["grid-push", "grid-pull", "grid-step"][kind]) && kind < 2 {
+                    if g.reset_parsed(&c, gold, 2 + i % 40, ["grid-push", "grid-pull", "grid-step", "grid-trap-push", "grid-trap-step"][kind]) && kind != 2 {
                         let a = Action::Move(Square::from_index(sq as u8), d);
                         let offered = guarded(|| g.top().valid_actions().contains(&a)).unwrap_or(false);
                         if offered && g.step(&a) {
@@ -136,7 +136,7 @@ fn main() {
                                         }
                                         _ => false,
                                     };
-                                    if kind == 1 && !enemy {
+                                    if (kind == 1 || kind == 4) && !enemy {
                                         continue;
                                     }
                                     if !g.probe(b) {
